@@ -487,6 +487,13 @@ func ApplyOverlapToChunks(chunks []*Chunk, config OverlapConfig) []*ChunkWithOve
 	generator := NewOverlapGeneratorWithConfig(config)
 	result := make([]*ChunkWithOverlap, len(chunks))
 
+	// The loop below rewrites chunk.Text in place, so remember each chunk's own
+	// content: overlap must come from it, not from the overlap it received
+	originalTexts := make([]string, len(chunks))
+	for i, chunk := range chunks {
+		originalTexts[i] = chunk.Text
+	}
+
 	for i, chunk := range chunks {
 		result[i] = &ChunkWithOverlap{
 			Chunk: chunk,
@@ -494,8 +501,7 @@ func ApplyOverlapToChunks(chunks []*Chunk, config OverlapConfig) []*ChunkWithOve
 
 		if i > 0 && config.Strategy != OverlapNone {
 			// Generate overlap from previous chunk
-			prevChunk := chunks[i-1]
-			overlap := generator.GenerateOverlap(prevChunk.Text)
+			overlap := generator.GenerateOverlap(originalTexts[i-1])
 
 			if overlap.Text != "" {
 				result[i].OverlapPrefix = overlap.Text
